@@ -59,6 +59,7 @@ def loglik(st, A, u=None, v=None):
     v = st.v if v is None else v
     terms = []
     minrate = float('inf')
+    LOGLIK_MARGIN[0] = float('inf')
     for a in range(st.L):
         for i in range(st.N):
             for j in range(st.N):
@@ -67,9 +68,16 @@ def loglik(st, A, u=None, v=None):
                 m = A[a].get((i, j), 0)
                 if m:
                     minrate = min(minrate, M)
+                    if M == M:
+                        LOGLIK_MARGIN[0] = min(LOGLIK_MARGIN[0], abs(M - EPS) / EPS)
                     if M > EPS:
                         terms.append(m * math.log(M))
     return math.fsum(terms), minrate
+
+
+# smallest relative distance of an OBSERVED pair's rate to the 1e-6 threshold in the last loglik() call: below 1e-9 the presence of
+# that pair's log term is decided by the rounding of the rate (summation order), and the oracle sets the state aside
+LOGLIK_MARGIN = [float('inf')]
 
 
 def min_observed_rate(st, A, u, v):
